@@ -132,6 +132,7 @@ type Sched struct {
 	Tape *Tape
 
 	lockHolder *G // simulated process-wide wallet-db writer lock
+	beginVia   map[int64]bool // goroutines inside SimDB.BeginTx on their way to the writer-lock hook
 	rootHolds  bool
 
 	starting *Instance // instance whose Start is in progress (children register to it)
@@ -160,7 +161,7 @@ type Sched struct {
 
 //go:norace
 func NewSched(tape *Tape) *Sched {
-	return &Sched{gs: map[int64]*G{}, Tape: tape, dead: make(chan struct{}), GateHits: map[string]int{}}
+	return &Sched{gs: map[int64]*G{}, Tape: tape, dead: make(chan struct{}), GateHits: map[string]int{}, beginVia: map[int64]bool{}}
 }
 
 //go:norace
